@@ -5,6 +5,7 @@ import (
 	"go/constant"
 	"go/token"
 	"go/types"
+	"math"
 	"math/big"
 
 	"golang.org/x/tools/go/ssa"
@@ -187,6 +188,16 @@ func (e *ivEngine) base(v ssa.Value, at *ssa.BasicBlock, tr ivInterval, isInt bo
 		if src, ok := e.Range(x.X, at); ok {
 			return src
 		}
+	case *ssa.Call:
+		// math.Round/Floor/Ceil/Trunc are monotone and map integers to themselves: [lo,hi] -> [floor(lo), ceil(hi)]
+		if f := x.Call.StaticCallee(); f != nil && f.Pkg != nil && f.Pkg.Pkg.Path() == "math" && len(x.Call.Args) == 1 {
+			switch f.Name() {
+			case "Round", "Floor", "Ceil", "Trunc", "RoundToEven":
+				if a, ok := e.Range(x.Call.Args[0], at); ok {
+					return ivInterval{ivFloor(a.Lo), ivCeil(a.Hi)}
+				}
+			}
+		}
 	case *ssa.Phi:
 		var out ivInterval
 		first := true
@@ -226,6 +237,30 @@ func (e *ivEngine) base(v ssa.Value, at *ssa.BasicBlock, tr ivInterval, isInt bo
 		}
 	}
 	return tr
+}
+
+func ivFloor(x *big.Float) *big.Float {
+	if x.IsInf() || x.IsInt() {
+		return x
+	}
+	i, _ := x.Int(nil) // truncates toward zero
+	f := ivInt(i)
+	if x.Sign() < 0 {
+		f = new(big.Float).SetPrec(ivPrec).Sub(f, ivF(1))
+	}
+	return f
+}
+
+func ivCeil(x *big.Float) *big.Float {
+	if x.IsInf() || x.IsInt() {
+		return x
+	}
+	i, _ := x.Int(nil)
+	f := ivInt(i)
+	if x.Sign() > 0 {
+		f = new(big.Float).SetPrec(ivPrec).Add(f, ivF(1))
+	}
+	return f
 }
 
 // ivArith is interval arithmetic for + - * (exact at ivPrec for 64-bit operands).
@@ -279,27 +314,91 @@ func (e *ivEngine) ivSameVar(a, v ssa.Value) bool {
 	return a == v || strip(a) == strip(v)
 }
 
-// refine intersects r with the branch facts that dominate `at`.
+// refine intersects r with the branch facts known at `at`: the facts of an edge hold in its
+// target; where several edges meet, the hull of what holds along each of them (so `a == 0 ||
+// (a >= 1901 && a <= 2155)` bounds a by [0, 2155]). The walk goes backwards from `at` to the
+// block that defines v (or the entry); a cycle (loop) contributes no facts.
 func (e *ivEngine) refine(v ssa.Value, at *ssa.BasicBlock, r ivInterval, isInt bool) ivInterval {
 	if _, isConst := v.(*ssa.Const); isConst {
 		return r
 	}
-	for x := at; x != nil; x = x.Idom() {
-		if len(x.Preds) != 1 {
-			continue
-		}
-		p := x.Preds[0]
-		if len(p.Instrs) == 0 || len(p.Succs) != 2 || p.Succs[0] == p.Succs[1] {
-			continue
-		}
-		iff, ok := p.Instrs[len(p.Instrs)-1].(*ssa.If)
-		if !ok {
-			continue
-		}
-		taken := p.Succs[0] == x
-		r = e.applyCond(iff.Cond, taken, v, p, r, isInt)
+	var def *ssa.BasicBlock
+	if in, ok := v.(ssa.Instruction); ok {
+		def = in.Block()
 	}
-	return r
+	memo := map[*ssa.BasicBlock]*ivInterval{}
+	onStack := map[*ssa.BasicBlock]bool{}
+	budget := 4000
+	var at2 func(b *ssa.BasicBlock) ivInterval
+	at2 = func(b *ssa.BasicBlock) ivInterval {
+		if m, ok := memo[b]; ok {
+			return *m
+		}
+		if b == def || len(b.Preds) == 0 || onStack[b] || budget <= 0 {
+			return r
+		}
+		budget--
+		onStack[b] = true
+		var out ivInterval
+		first := true
+		for _, p := range b.Preds {
+			if def != nil && !def.Dominates(p) {
+				continue // v does not exist on that path
+			}
+			pr := at2(p)
+			if len(p.Instrs) > 0 && len(p.Succs) == 2 && p.Succs[0] != p.Succs[1] {
+				if iff, ok := p.Instrs[len(p.Instrs)-1].(*ssa.If); ok {
+					pr = e.applyCond(iff.Cond, p.Succs[0] == b, v, p, pr, isInt)
+				}
+			}
+			if pr.Empty() {
+				continue // infeasible edge
+			}
+			if first {
+				out, first = pr, false
+			} else {
+				out = ivHull(out, pr)
+			}
+		}
+		onStack[b] = false
+		if first {
+			out = r
+		}
+		memo[b] = &out
+		return out
+	}
+	return at2(at)
+}
+
+// ivNextFloat: the nearest value of float type t strictly above (up) or below x, when x is itself
+// a value of that type (a strict comparison against x excludes x); otherwise x.
+func ivNextFloat(x *big.Float, t types.Type, up bool) *big.Float {
+	if x.IsInf() {
+		return x
+	}
+	b, ok := t.Underlying().(*types.Basic)
+	if !ok {
+		return x
+	}
+	dir := math.Inf(-1)
+	if up {
+		dir = math.Inf(1)
+	}
+	switch b.Kind() {
+	case types.Float32:
+		f, acc := x.Float32()
+		if acc != big.Exact || math.IsInf(float64(f), 0) {
+			return x
+		}
+		return ivF(float64(math.Nextafter32(f, float32(dir))))
+	case types.Float64, types.UntypedFloat:
+		f, acc := x.Float64()
+		if acc != big.Exact || math.IsInf(f, 0) {
+			return x
+		}
+		return ivF(math.Nextafter(f, dir))
+	}
+	return x
 }
 
 func ivNegate(op token.Token) token.Token {
@@ -374,6 +473,8 @@ func (e *ivEngine) applyCond(cond ssa.Value, taken bool, v ssa.Value, at *ssa.Ba
 			hi := o.Hi
 			if isInt && hi.IsInt() {
 				hi = nf().Sub(hi, one)
+			} else if !isInt {
+				hi = ivNextFloat(hi, v.Type(), false)
 			}
 			r = ivMeet(r, ivInterval{ivInf(true), hi})
 		case token.LEQ:
@@ -382,6 +483,8 @@ func (e *ivEngine) applyCond(cond ssa.Value, taken bool, v ssa.Value, at *ssa.Ba
 			lo := o.Lo
 			if isInt && lo.IsInt() {
 				lo = nf().Add(lo, one)
+			} else if !isInt {
+				lo = ivNextFloat(lo, v.Type(), true)
 			}
 			r = ivMeet(r, ivInterval{lo, ivInf(false)})
 		case token.GEQ:
@@ -457,9 +560,9 @@ func ivCollectOps(fn *ssa.Function) []ivOp {
 					out = append(out, ivOp{in, "NEG", x.Type(), []ssa.Value{x.X}})
 				}
 			case *ssa.Convert:
-				dst, dstInt, ok1 := ivTypeRange(x.Type())
+				dst, _, ok1 := ivTypeRange(x.Type())
 				src, _, ok2 := ivTypeRange(x.X.Type())
-				if !ok1 || !ok2 || !dstInt {
+				if !ok1 || !ok2 {
 					continue
 				}
 				if _, isConst := x.X.(*ssa.Const); isConst {
@@ -817,6 +920,9 @@ func ivDescribe(v ssa.Value, depth int) string {
 		return q(x.AssertedType)
 	case *ssa.Call:
 		if f := x.Call.StaticCallee(); f != nil {
+			if f.Pkg != nil && f.Pkg.Pkg.Path() == "math" && len(x.Call.Args) == 1 {
+				return "math." + f.Name() + "(" + ivDescribe(x.Call.Args[0], depth+1) + ")"
+			}
 			if f.Signature.Recv() != nil {
 				return q(f.Signature.Recv().Type()) + "." + f.Name()
 			}
